@@ -69,6 +69,29 @@ let run ~tier ~seed ~only acc =
   let want () = cur_index := !idx; (match only with None -> true | Some i -> i = !idx) in
   let path = Filename.concat (Wr.tmpdir ()) (Printf.sprintf "c12_%d.mtbl" (Unix.getpid ())) in
   let cpath = path ^ ".bad" in
+  (* intact tables behind foreign bytes, over a sweep of table sizes: where the data blocks end relative to a page
+     boundary, and where they begin relative to one, must not matter to mtbl_verify *)
+  let pst = case_rng ~seed ~engine ~index:1 in
+  List.iter (fun prefix ->
+    for k = 0 to (if tier = "thorough" then 120 else 40) do
+      if want () then begin
+        let n = 1 + k in
+        let comp = if k mod 5 = 0 then 2 else 0 in
+        let c = { comp; level = None; block_size = Some 1024; interval = None; pool = 0; prefix = Int64.of_int prefix } in
+        let es = List.init n (fun i -> (Printf.sprintf "key%04d" i, String.make (40 + (i * 7 + k) mod 90 + rint pst 8) (Char.chr (97 + i mod 26)))) in
+        (match Wr.run_impl c es path with
+         | Exited (_, s) when String.length s > 8 ->
+           let case = lazy (JO [ "foreign_prefix", JI prefix; "entries", JI n; "comp", JI comp; "file_len", JI (String.length (Rd.read_file path)) ]) in
+           record acc ~key:(Printf.sprintf "pfx%d/%d" prefix k) ~nontrivial:true ~klass:"intact_behind_prefix" case;
+           env_mode := k;
+           if run_verify path <> 0 then
+             fail acc ~kind:"spec_violation" ~what:"[C12] mtbl_verify does not accept an intact file from the writer (table behind foreign bytes)" (Lazy.force case);
+           if model_verify (Rd.read_file path) <> "OK" then
+             fail acc ~kind:"model_mismatch" ~what:"[C12] verify model rejects an intact file behind foreign bytes" (Lazy.force case)
+         | _ -> fail acc ~kind:"model_mismatch" ~what:"[C12] writer run failed" JNull)
+      end;
+      incr idx
+    done) [ 100; 4095; 4097 ];
   let ntables = if tier = "thorough" then 12 else 4 in
   for ti = 0 to ntables - 1 do
     let st = case_rng ~seed:(seed + ti) ~engine ~index:0 in
